@@ -33,7 +33,7 @@ def run_smt(h, scratch, logdir, tier):
         r["class"], r["why"] = "inconclusive", "the SMT driver failed (MIR dump or translator error); log tail:\n" + tail
     else:
         d = json.load(open(out))
-        r["smt"] = {k: d.get(k) for k in ("cases", "intrinsics_modelled", "exponents", "paths", "decided_returns", "cache_hits", "opaque_returns", "err_returns", "oblig_unsat",
+        r["smt"] = {k: d.get(k) for k in ("cases", "outcomes", "intrinsics_modelled", "exponents", "paths", "decided_returns", "cache_hits", "opaque_returns", "err_returns", "oblig_unsat",
                                           "oblig_unknown", "queries", "solver_calls", "fast_exps_range", "n_fast_exps", "opaque_calls",
                                           "interpreted", "validation", "solver", "wall_s")}
         r["checks_total"] = d["decided_returns"] + d["oblig_unsat"] + len(d["oblig_sat"])
@@ -47,9 +47,11 @@ def run_smt(h, scratch, logdir, tier):
             r["why"] = "translator/solver error: %s" % (d["unsupported"] or d["errors"])[:3]
         elif cex:
             r["class"] = "fail"
-            r["failed_checks"] = [{"desc": ("%s at need=%s bytes=%s" % (c["kind"], c["need"], c.get("bytes"))) if "need" in c else
+            r["failed_checks"] = [{"desc": ("%s: %s%s (shape %s)" % (c["kind"], c.get("text"), " followed by more input" if c.get("pad") else "", c["shape"])) if "shape" in c else
+                                           ("%s at need=%s bytes=%s" % (c["kind"], c["need"], c.get("bytes"))) if "need" in c else
                                            ("%s at exp10=%s w=%s neg=%s" % (c["kind"], c["exp10"], c["w"], c.get("neg"))),
                                    "loc": "sonic-number/src/arch/x86_64.rs" if "need" in c else "sonic-number/src/lib.rs", "cex": c} for c in cex[:40]]
+            r["failed_checks"] = [c for c in r["failed_checks"] if "shape" not in c["cex"] or c["cex"].get("text")] or r["failed_checks"]
         elif d["unknown"] or d["unrealisable"]:
             r["class"] = "inconclusive"
             r["why"] = "solver did not decide: unknown=%s unrealisable=%s" % (d["unknown"][:4], [(u["exp10"], u["kind"]) for u in d["unrealisable"][:4]])
@@ -111,6 +113,8 @@ def replay_counterexample(h, r, scratch, prop, logdir):
         if c["cex"].get("bytes") is not None and "need" in c["cex"]:
             kind = "replay_simd"
             t = "%d %s" % (c["cex"]["need"], c["cex"]["bytes"])
+        elif c["cex"].get("text") is not None and "shape" in c["cex"]:
+            t = ("pad:" if c["cex"].get("pad") else "") + c["cex"]["text"]
         elif c["cex"].get("w") is not None:
             t = cex_text(c["cex"])
         else:
